@@ -89,6 +89,11 @@ def explore(mod_name, func_name, params, opts):
         for a in ctx.assumptions:
             if a not in res['assumptions']:
                 res['assumptions'].append(a)
+        if ctx.generic_divisors:
+            res['generic_divisors'] = res.get('generic_divisors', 0) + len(ctx.generic_divisors)
+            a = 'genericity: divisors assumed non-zero, e.g. ' + ctx.generic_divisors[0]
+            if not any(x.startswith('genericity') for x in res['assumptions']):
+                res['assumptions'].append(a)
         for n_ in ctx.notes:
             if n_ not in res['notes'] and len(res['notes']) < 50:
                 res['notes'].append(n_)
